@@ -21,7 +21,7 @@ def tables(rep=None):
                 ax[p[1]] = (p[2], set(p[3]["__set__"]))
             elif p[0] == "FORM":
                 forms[(p[1], p[2])] = p[3]
-        if not names or len(names) != 47 or len(ax) != 47 or len(forms) < 47 * 6:
+        if not names or len(names) != 47 or len(ax) != 47 or len(forms) < 47 * 8:
             raise H.MachineryError("Metrics.tla did not print the full tables (%s names, %d axioms, %d forms)" % (names and len(names), len(ax), len(forms)))
         _CACHE.update(names=names, ax=ax, forms=forms, res=res)
     if rep is not None:
